@@ -378,6 +378,7 @@ func runStoreScenario(sc *storeScenario, out *bufio.Writer) (hung bool) {
 					moved = append(moved, fmt.Sprint(hk))
 					return b.Put(hk, e)
 				})
+				order := append([]string{}, moved...)
 				sort.Strings(moved)
 				if err != nil {
 					ob = []interface{}{"xfer", "err:" + err.Error()}
@@ -390,7 +391,7 @@ func runStoreScenario(sc *storeScenario, out *bufio.Writer) (hung bool) {
 				if moved == nil {
 					moved = []string{}
 				}
-				ob = []interface{}{"xfer", true, moved}
+				ob = []interface{}{"xfer", true, moved, order}
 			default:
 				panic("unknown op " + name)
 			}
